@@ -57,6 +57,11 @@ CHECKS = {
         text="Theorems C06_isolation, C06_results_are_per_file, C06_exit_status, C06_depth_exponential_refuted (no axioms). Each run: ~35-40 malformed contents (syntax errors, truncations, bit flips, binary, encodings, CR/CRLF, long lines, deep parentheses) analysed alone and mixed into a project of good files: exit status in {0,1}, no panic/goroutine trace, time bound, report sections of the good files identical to the baseline; 4 formats written; nesting depth up to 160/320; calculateMaxDepth vs its Coq model on random graphs.",
         note="partial: tree-sitter, Go runtime (stack, memory), wall clock and OS are not modelled; the malformed stream is a test, not a proof. F29 (panic on elif without body) repaired; F21 (exponential longest-chain search) recorded as open known finding.",
         design="5 C06"),
+    "C07": dict(
+        technique="Coq proof about the textbook forest-recurrence spec (delta) and a literal Gallina model of apted.go/apted_tree.go (Zhang-Shasha) and of the three cost models; constants regenerated from Go source; a memoised evaluator proved equal to the spec; brute-force minimum over Tai mappings on a bounded domain; differential correspondence (vm_compute) against the tagged Go driver on real TreeNode values",
+        text="Theorems (Props/C07.v, no axioms): for the spec, distance non-negative, 0 to itself, symmetric for symmetric costs, never more than delete-all plus insert-all, similarity in [0,1] and 1 for identical trees (any size); the three shipped cost models satisfy the hypotheses for every label; the model's similarity is in [0,1] for all inputs and its nil cases equal the spec; bounded: model = spec = brute-force minimum over all Tai mappings on all pairs of trees with <=4 nodes/2 labels and <=3 nodes/3 labels for the three cost models. Every run: exhaustive small pairs and random/mutated trees up to 40 (120 thorough) nodes, cost tables, self-zero/symmetry/upper-bound/similarity clauses on the implementation, cases at 499/500 nodes and above.",
+        note="ComputeDistance = spec for all trees <= 500 nodes is NOT proved in general (bounded theorem + correspondence). Costs are exact integers (units of 2^-120): default model compared exactly, python/weighted within 1e-9. Minimum edit cost = minimum over edit mappings (python/weighted costs are not a metric). Trees > 500 nodes (computeDistanceOptimized) are not modelled; only similarity range/identity are checked there. Observation recorded in DESIGN: above 500 nodes the distance is usually 0.",
+        design="5 C07"),
     "C10": dict(
         technique="Coq proofs over executable models of the four grouping strategies (internal/analyzer/*_grouping.go) plus a computable contract checker proved equivalent to the contract and run on the implementation's output; constants regenerated from Go source; differential correspondence (vm_compute) against the tagged Go driver (op group) and the CLI JSON report",
         text="Theorems (Props/C10.v, no axioms): for every pair list, threshold > 0, k and map order the model's groups satisfy the selected mode's contract (>= 2 members, disjoint, connected inside the group through pairs >= t; connected = exactly the components of G_t with >= 2 members; complete = cliques; k-core = >= k neighbours inside the group; star = a medoid >= t with every other member); check_contract <-> contract; bounded: k-core groups = components of the k-core on all 4-fragment graphs and all map orders. Every run: real GroupClones on all weighted graphs on <= 4 fragments (5-point threshold lattice), sampled 5-fragment graphs, structured and random graphs to 40 fragments, decided by the proved checker, implementation compared with the model as sets of sets; clone.clone_groups[] of the CLI report checked per grouping_mode.",
